@@ -544,6 +544,14 @@ def run(ctx: lib.Ctx) -> None:
         doc = json.load(open(path))
         fixed.append((f"corpus case {os.path.basename(path)}: {doc.get('why', '')}", doc['annotated'], doc['stripped']))
         ctx.corpus_cases += 1
+    for f in ctx.known.get('fixed', []):          # witnesses of `fixed` entries of findings/C17.json
+        w = f.get('witness', {})
+        if 'annotated' in w and 'stripped' in w and not any(w['annotated'] == x[1] for x in fixed):
+            fixed.append((f"fixed defect is back ({f.get('commit')}): {f.get('what')}", w['annotated'], w['stripped']))
+    kf = ctx.finding('list-map-field-annot')
+    if kf:                                        # still a known finding: note whether its witness still reproduces
+        w = kf['witness']
+        ctx.extra['known_finding_witness_still_fails'] = observe_text(w['annotated']) != observe_text(w['stripped'])
     for what, annotated, plain in fixed:
         a, b = observe_text(annotated), observe_text(plain)
         ctx.case(('fixed', annotated), kind='fixed-witness', sample={'code': annotated, 'result': repr(a)[:200]})
